@@ -336,6 +336,140 @@ def integrity_worker(job):
     return finish_worker(job, H.Exploration(), viol, evaluated=n_ev)
 
 
+# ---- results that are already in the net follow the relabelling (evaluated) ---------------------------------------------------
+CARRY_TOOLS = ("reindex_junctions", "reindex_pipes", "reindex_sinks", "continuous_junctions", "continuous_pipes", "continuous_elements")
+
+
+def _unsorted_labels(spec):
+    """same structure with junction and element labels that are neither contiguous nor ascending in table order"""
+    s = copy.deepcopy(spec)
+    nj = s["nj"]
+    pool = [40, 3, 17, 9, 120, 5, 64, 28]
+    s["jl"] = pool[:nj]
+    cnt = {}
+    for e in s["elems"]:
+        k = cnt.get(e["t"], 0)
+        cnt[e["t"]] = k + 1
+        e["_k"] = k
+    n_of = dict(cnt)
+    old_pipe = {}
+    for e in s["elems"]:
+        new = [11, 4, 30, 7, 2, 19, 50, 8][(e["_k"] * 3 + 1) % 8] if n_of[e["t"]] > 1 else 6
+        if e["t"] == "pipe":
+            old_pipe[e.get("index", e["_k"])] = new
+        e["index_new"] = new
+    for e in s["elems"]:
+        if e["t"] == "valve" and e.get("et") == "pi":
+            e["el"] = old_pipe[e["el"]]
+        e["index"] = e.pop("index_new")
+        e.pop("_k")
+    return s
+
+
+def _carry_problems(spec, tool):
+    import pandapipes as pp
+    net, _ = nets.build(spec, nets.concrete_valuer({}))
+    mode = "sequential" if spec["name"].startswith("w_circ") else "hydraulics"
+    ok, err = concrete_pipeflow(net, mode=mode, use_numba=False)
+    if not ok:
+        return []
+    before = {k: net[k].copy() for k in net.keys() if isinstance(k, str) and k.startswith("res_") and hasattr(net[k], "columns") and len(net[k])}
+    jl = list(net.junction.index)
+    lookups = {}
+    if tool == "reindex_junctions":
+        lk = dict(zip(jl, jl[1:] + jl[:1]))
+        pp.reindex_junctions(net, lk)
+        lookups["junction"] = lk
+    elif tool == "reindex_pipes":
+        pl = list(net.pipe.index)
+        lk = dict(zip(pl, [x + 100 for x in pl[1:] + pl[:1]]))
+        pp.reindex_elements(net, "pipe", dict(lk))
+        lookups["pipe"] = lk
+    elif tool == "reindex_sinks":
+        if "sink" not in net or not len(net.sink):
+            return []
+        sl = list(net.sink.index)
+        lk = dict(zip(sl, [x + 50 for x in reversed(sl)]))
+        pp.reindex_elements(net, "sink", dict(lk))
+        lookups["sink"] = lk
+    elif tool == "continuous_junctions":
+        lookups["junction"] = dict(pp.create_continuous_junction_index(net))
+    elif tool == "continuous_pipes":
+        old = list(net.pipe.index)
+        pp.create_continuous_element_index(net, "pipe")
+        lookups["pipe"] = dict(zip(sorted(old), range(len(old))))
+    elif tool == "continuous_elements":
+        olds = {k_[4:]: list(net[k_[4:]].index) for k_ in before if k_[4:] in net and hasattr(net[k_[4:]], "index")}
+        pp.create_continuous_elements_index(net)
+        for t, o in olds.items():
+            lookups[t] = dict(zip(sorted(o), range(len(o))))
+    bad = []
+    for key, old_tab in before.items():
+        tbl = key[4:]
+        lk = lookups.get(tbl, {})
+        new_tab = net[key]
+        for ix in old_tab.index:
+            jx = lk.get(ix, ix)
+            if jx not in new_tab.index:
+                bad.append("%s: row of %s (now %s) is missing" % (key, ix, jx))
+                break
+            a, b = old_tab.loc[ix].values.astype(float), new_tab.loc[jx].values.astype(float)
+            if not np.allclose(a, b, rtol=1e-12, atol=0, equal_nan=True):
+                bad.append("%s: the results of element %s are not those of its new label %s after %s" % (key, ix, jx, tool))
+                break
+    return bad
+
+
+def _carry_problems_all_orders(spec, tool):
+    """create_continuous_elements_index walks a *set* of table names: its behaviour may depend on the iteration order,
+    i.e. on the hash seed of the process; it is therefore run in fresh processes under several hash seeds"""
+    if tool != "continuous_elements":
+        try:
+            return _carry_problems(spec, tool)
+        except Exception as e:   # noqa
+            return ["%s raised %r" % (tool, e)]
+    import json
+    import os
+    import subprocess
+    import sys
+    here = os.path.dirname(os.path.dirname(os.path.abspath(__file__)))
+    code = ("import sys, json; sys.path.insert(0, %r); from checks import c17\n"
+            "spec = json.loads(sys.stdin.read())\n"
+            "try:\n    bad = c17._carry_problems(spec, 'continuous_elements')\n"
+            "except Exception as e:\n    bad = ['continuous_elements raised %%r' %% (e,)]\n"
+            "print('RESULT' + json.dumps(bad))" % here)
+    out = []
+    for hs in ("1", "2", "3", "4"):
+        env = dict(os.environ, PYTHONHASHSEED=hs)
+        env.pop("NUMBA_DISABLE_JIT", None)
+        r = subprocess.run([sys.executable, "-c", code], input=json.dumps(spec), capture_output=True, text=True, env=env, timeout=600)
+        line = [ln for ln in r.stdout.splitlines() if ln.startswith("RESULT")]
+        bad = json.loads(line[-1][6:]) if line else ["helper process failed: %s" % r.stderr[-300:]]
+        out += ["PYTHONHASHSEED=%s: %s" % (hs, b) for b in bad]
+    return out
+
+
+def carry_worker(job):
+    viol = []
+    n_ev = 0
+    for spec in [s_ for s_ in structures() if s_["name"] == job["spec_name"]]:
+        us = _unsorted_labels(spec)
+        for tool in CARRY_TOOLS:
+            n_ev += 1
+            bad = _carry_problems_all_orders(us, tool)
+            if bad:
+                viol.append({"fingerprint": "C17/carried_results/%s" % tool, "detail": {"spec": spec["name"], "what": bad[:2]},
+                             "replay": {"kind": "carry", "spec": us, "tool": tool, "values": {}}})
+    D.STATS.obligations += n_ev
+    D.STATS.rewriter += n_ev - len(viol)
+    return finish_worker(job, H.Exploration(), viol, evaluated=n_ev)
+
+
+def replay_carry(rs):
+    bad = _carry_problems_all_orders(rs["spec"], rs["tool"])
+    return bool(bad), {"bad": bad[:3]}
+
+
 def replay_integrity(rs):
     import pandapipes as pp
     spec = rs["spec"]
@@ -377,15 +511,17 @@ def jobs(tier, seed):
         for ri, reg in enumerate(regions):
             out.append({"name": "subnet/%s/region%d" % (s["name"], ri), "kind": "subnet", "spec": s, "region": reg})
     out.append({"name": "integrity", "kind": "integrity", "seed_": seed})
+    for s in structures():
+        out.append({"name": "carried_results/%s" % s["name"], "kind": "carry", "spec_name": s["name"]})
     return out
 
 
 def worker(job):
-    return {"relabel": relabel_worker, "subnet": subnet_worker, "integrity": integrity_worker}[job["kind"]](job)
+    return {"relabel": relabel_worker, "subnet": subnet_worker, "integrity": integrity_worker, "carry": carry_worker}[job["kind"]](job)
 
 
 def replay(rs):
-    return {"relabel": replay_relabel, "subnet": replay_subnet, "integrity": replay_integrity}[rs["kind"]](rs)
+    return {"relabel": replay_relabel, "subnet": replay_subnet, "integrity": replay_integrity, "carry": replay_carry}[rs["kind"]](rs)
 
 
 def main(argv=None):
